@@ -30,7 +30,7 @@ $(B)/obj/$(1):
 	mkdir -p $$@
 $(B)/lib/libcmi_$(1).a: $$(OBJ_$(1)) | $(B)/lib
 	rm -f $$@ && ar rcs $$@ $$(OBJ_$(1))
--include $$(OBJ_$(1):.o=.d)
+-include $$(wildcard $(B)/obj/$(1)/*.d)
 endef
 $(eval $(call VARIANT,plain))
 $(eval $(call VARIANT,thr))
